@@ -219,6 +219,13 @@ Inv_C01b(w) ==
     Get(w.nat.bal, w.c.cfg.staker) + PkSum(w, NatDen(w), {w.c.cfg.staker}, AllSts)
       = w.c.N + MapThenSumSet(LAMBDA b : w.c.batches[b].expected, Outstanding(w)) + w.led.swept
 
+\* ... and "in flight" means in flight: a transfer the contract records as Sent is one the chain has not resolved yet
+\* (its acknowledgement or timeout, once delivered, moves the record on). Not claimed after a re-pointing of the channel
+\* (known finding KF2) or a forced recovery of a packet in flight.
+Inv_C01c(w) ==
+  (~w.led.forced /\ ~w.led.repointed) =>
+    \A p \in w.c.pk : p.status = "sent" => \E f \in w.ibc.fly : f.seq = p.seq
+
 \* C02: the contract's staked-asset balance = received-not-withdrawn + retained fees + refunds
 Inv_C02(w) ==
   ~w.led.forced =>
